@@ -27,7 +27,7 @@ REAL = ["BPTK_Py.server.bptkServer (InstanceManager sweep, timestamps, handlers,
         "BPTK_Py.externalstateadapter (FileAdapter logic, jsonpickle round trip)", "BPTK_Py.bptk", "Flask", "werkzeug test client"]
 STUB = ["wall clock (virtual, integer microseconds)", "uuid source", "file system under FileAdapter (simfs)",
         "SdSimulation worker threads run serially", "TCP/HTTP server loop"]
-ASSUMPTIONS = ["backwards clock jumps are not injected (the property speaks of elapsed time)",
+ASSUMPTIONS = ["an instance is created when its creation request completes (slow-factory pattern: its timer does not start before the instance has been built)", "backwards clock jumps are not injected (the property speaks of elapsed time)",
                "with a ticking clock the +-1us boundary classes are widened to +-16us and verdicts inside the band are withheld",
                "real-time cross-check is left to the repository's own three sleep-based tests"]
 FAULT_KINDS = ["preemption", "clock_gap_at_boundary", "clock_tick_between_reads", "expiry"]
